@@ -118,8 +118,8 @@ namespace {
                catch (const std::exception& e) { fail("parameter-list:valid-component-refused", { seq.begin(), seq.begin() + i + 1 }, std::string("reading the component of the parameter just added is refused: ") + e.what()); }
             }
             check_product("parameter-list", { seq.begin(), seq.begin() + i + 1 }, t, want);
-            for (std::size_t beyond : { i + 1, i + 2 }) { try { (void) &*pl.elements().position(beyond); fail("parameter-list:out-of-range-answered", { seq.begin(), seq.begin() + i + 1 }, "a position beyond the last parameter is answered"); } catch (const std::logic_error&) { } }
-            if (i > 0) (void) &*pl.elements().position(i);          // leave the last successful access at a high index
+            // (the last successful access was at the highest index; the last refused one is at exactly size())
+            for (std::size_t beyond : { i + 2, i + 1 }) { try { (void) &*pl.elements().position(beyond); fail("parameter-list:out-of-range-answered", { seq.begin(), seq.begin() + i + 1 }, "a position beyond the last parameter is answered"); } catch (const std::logic_error&) { } }
             check_product("parameter-scope", { seq.begin(), seq.begin() + i + 1 }, pl.region().bindings().type(), want);
             rep.count("states");
          }
@@ -178,7 +178,7 @@ namespace {
                catch (const std::exception& e) { fail("base-list:valid-component-refused", { seq.begin(), seq.begin() + i + 1 }, std::string("reading the component of the base just declared is refused: ") + e.what()); }
             }
             check_product("base-list", { seq.begin(), seq.begin() + i + 1 }, *bt, bwant);
-            { auto& bs = static_cast<const ipr::Class&>(*k).bases(); for (std::size_t beyond : { i + 1, i + 2 }) { try { (void) &*bs.position(beyond); fail("base-list:out-of-range-answered", { seq.begin(), seq.begin() + i + 1 }, "a position beyond the last base is answered"); } catch (const std::logic_error&) { } } if (i > 0) (void) &*bs.position(i); }
+            { auto& bs = static_cast<const ipr::Class&>(*k).bases(); for (std::size_t beyond : { i + 2, i + 1 }) { try { (void) &*bs.position(beyond); fail("base-list:out-of-range-answered", { seq.begin(), seq.begin() + i + 1 }, "a position beyond the last base is answered"); } catch (const std::logic_error&) { } } }
             rep.count("states");
          }
       }
